@@ -174,6 +174,9 @@ def run_one(prog: dict) -> dict:
         ref, values = runprog.numpy_reference(prog, data)
         if ref is None:
             continue
+        if runprog.int_overflow_risk(values):
+            res["skipped_overflow"] = res.get("skipped_overflow", 0) + 1
+            continue
         before = {k: v.copy() for k, v in data.items()}
         try:
             import warnings
@@ -190,6 +193,7 @@ def run_one(prog: dict) -> dict:
                                         "what": f"input {k} was modified by the generated "
                                                 f"code"})
         scale = runprog.scale_of(data, values)
+        single = runprog.single_precision_involved(data, values)
         if not isinstance(got, dict) and len(declared) == 1:
             got = {next(iter(declared)): got}
         for name, (shape, dtype) in declared.items():
@@ -203,7 +207,7 @@ def run_one(prog: dict) -> dict:
                                         "what": f"{name}: returned shape {g.shape}, declared "
                                                 f"{shape}"})
                 continue
-            msg = runprog.compare(g, ref[name], dtype, scale)
+            msg = runprog.compare(g, ref[name], dtype, scale, single)
             res["compared"] += 1
             if msg:
                 res["problems"].append({"clause": "value", "exc": kind,
